@@ -173,7 +173,7 @@ def ref_lookup(times, t, policy):
 @st.composite
 def lookup_case(draw):
     c = draw(traj_case())
-    kind = draw(st.sampled_from(["before", "after", "on", "between", "tie", "other-unit", "other-unit"]))
+    kind = draw(st.sampled_from(["before", "after", "on", "between", "tie", "other-unit", "other-unit", "hairline"]))
     c["qkind"] = kind
     c["qpick"] = draw(st.integers(0, 1000))
     c["qfrac"] = draw(st.integers(1, 15))
@@ -209,6 +209,11 @@ def check_lookup(ctx, c):
         if fr == F(1, 2):
             fr = F(7, 16)
         q = tf[k] + (tf[k + 1] - tf[k]) * fr
+    elif kind == "hairline":
+        # a hair's breadth before / after a sample (relative 2^-24 .. 2^-40): not "equal", whatever tolerance a float comparison may like
+        k = pick % n
+        eps = F(1, 2 ** (24 + 4 * (c["qfrac"] % 5)))
+        q = tf[k] + (abs(tf[k]) + (1 if tf[k] == 0 else 0)) * eps * (1 if c["qfrac"] % 2 else -1)
     elif kind == "tie" and n >= 2:
         k = pick % (n - 1)
         q = (tf[k] + tf[k + 1]) / 2
